@@ -351,15 +351,16 @@ def check_model_cpp(tool, seed, idx, known, n_repro=4):
                 else:
                     if e["recv"] == "own":
                         base_ok = int(kv["boxdrops"]) == int(box) and int(kv["ctxclones"]) == int(arc)
-                        if base_ok and arc and kv["ctxdrops"] == "1":
+                        if base_ok and arc and kv["ctxdrops"] == "1" and kv["ctxdrops_orig"] == "1":
                             known_or(K_CPP_CTXLEAK, "C17", f"member wrapper {kv['wrapper']} for the consuming entry {e['trait']}::{e['meth']} {where} clones the context before the call (___ctx) and never releases that clone: context cloned 1x, released 1x (by the callee, for the consumed container); the C wrappers call ctx_arc_drop(&___ctx)")
                             continue
-                        acct = base_ok and int(kv["ctxdrops"]) == 2 * int(arc) and kv["order_ok"] == "1"
+                        # the callee releases the container's own context handle, the wrapper its clone: each once
+                        acct = base_ok and int(kv["ctxdrops"]) == 2 * int(arc) and int(kv["ctxdrops_orig"]) == int(arc) and int(kv["ctxdrops_clone"]) == int(arc) and kv["order_ok"] == "1"
                     else:
                         acct = kv["boxdrops"] == "0" and kv["ctxclones"] == "0" and kv["ctxdrops"] == "0"
                     if acct:
                         continue
-                    key, what = "C17:c++:context-accounting", f"instance released {kv['boxdrops']}x, context cloned {kv['ctxclones']}x / released {kv['ctxdrops']}x, order ok={kv['order_ok']}"
+                    key, what = "C17:c++:context-accounting", f"instance released {kv['boxdrops']}x, context cloned {kv['ctxclones']}x / released {kv['ctxdrops']}x (the object's own handle {kv['ctxdrops_orig']}x, the wrapper's clone {kv['ctxdrops_clone']}x; counted after the consumed object went out of scope), order ok={kv['order_ok']}"
                 viol.append({"prop": "C17", "key": key, "what": f"member wrapper {kv['wrapper']} for {e['trait']}::{e['meth']} {where}: {what}"})
             arities = [len(set(len(m.args) for m in tr.methods)) >= 2 for tr in model.traits.values()]
             clash = len(set(m.name for tr in model.traits.values() for m in tr.methods)) < sum(len(tr.methods) for tr in model.traits.values())
